@@ -42,6 +42,7 @@ func injectConsts(k *h.Case, g *spec.Gen, prog *spec.Program) []*constDef {
 	r := k.R
 	n := 1 + r.IntN(6)
 	var defs []*constDef
+	var laterDefs []*spec.Const // constants defined at the very end of the file and used nowhere
 	nItems := len(prog.Items)
 	for i := 0; i < n; i++ {
 		d := &constDef{name: g.Name([]string{"CONST_", "CONST_", "ÉTAGE_", "定数_"}[r.IntN(4)])}
@@ -50,6 +51,14 @@ func injectConsts(k *h.Case, g *spec.Gen, prog *spec.Program) []*constDef {
 		if r.IntN(7) == 0 {
 			d.value = []string{[]string{"true", "TRUE", "false", "FALSE"}[r.IntN(4)]}
 			d.isBool = true
+		} else if r.IntN(12) == 0 {
+			// its own name, or the name of a constant that is only defined further down: plain identifiers at this
+			// point (values are fixed when the definition is read)
+			d.value = []string{d.name, "+", "1"}
+			if r.IntN(2) == 0 {
+				d.value = []string{"LATER_" + d.name, "*", "2"}
+				laterDefs = append(laterDefs, &spec.Const{Name: "LATER_" + d.name, Value: []string{"77"}})
+			}
 		} else if len(defs) > 0 && r.IntN(2) == 0 {
 			// defined from an earlier constant
 			e := defs[r.IntN(len(defs))]
@@ -250,6 +259,10 @@ func injectConsts(k *h.Case, g *spec.Gen, prog *spec.Program) []*constDef {
 					}
 					blk(item, c.Body)
 				}
+			case *spec.PorySwitch:
+				for _, c := range x.Cases {
+					blk(item, c.Body)
+				}
 			}
 		}
 	}
@@ -283,6 +296,11 @@ func injectConsts(k *h.Case, g *spec.Gen, prog *spec.Program) []*constDef {
 		}
 	}
 	k.Count("const_uses", int64(uses))
+	for _, c := range laterDefs {
+		c.ID = prog.NewID()
+		prog.Items = append(prog.Items, c)
+		k.Count("constants_named_in_an_earlier_constants_value", 1)
+	}
 	return defs
 }
 
@@ -404,6 +422,11 @@ func runC13(ctx *h.Ctx) int {
 	prof.MultiTokenCases = true
 	prof.ValueFn = 0.3
 	ctx.RunCases("const-pairs", ctx.N(6000, 300000), func(k *h.Case) {
+		prof := prof
+		if k.Index%3 == 2 {
+			// constants used inside poryswitch cases (P and P' keep the poryswitch; only the constants go)
+			prof.WPory, prof.PoryKeys, prof.PFallback = 8, []string{"GAME", "LANG"}, 1
+		}
 		g := spec.NewGen(k.R, prof)
 		prog := g.FullProgram(1 + k.R.IntN(4))
 		if k.R.IntN(3) == 0 {
